@@ -127,9 +127,58 @@ def long_gap(ctx, rng, k):
     return {"fn": "tracker.run", "rx": rx, "script": script, "lower": rng.choice([0, 0, 1, 2])}
 
 
+def slow_pairs(ctx, rng, k):
+    """even / odd frames of one aircraft arriving 9.5 .. 48 s apart with no usable reference (first contact, and again after
+    more than 180 s of silence about its position): only the pairs inside 10 s may be decoded.  The aircraft moves at the top of
+    the assumed envelope (surface ~65 kt next to the receiver, or airborne ~590 kt), so a pair accepted late is a zone off."""
+    surf = k % 16 == 1
+    import math
+    ang = rng.random() * 6.283185
+    sp = 7 if surf else rng.randrange(56, 64)                   # BAM24 per half second
+    v = (int(round(sp * math.cos(ang))), int(round(sp * math.sin(ang))))
+    a = rng.randrange(-2600000, 2600000)
+    o = rng.randrange(-(1 << 23), 1 << 23)
+    rx = [1, cprpy_rx(a) + rng.randrange(-300, 300), cprpy_rx(o) + rng.randrange(-300, 300)]
+    addr = rng.randrange(1, 1 << 24)
+    kind = "surf" if surf else "air"
+    now = 2000 + rng.randrange(1000)
+    script = []
+    oe = rng.randrange(2)
+
+    def fly(dt):
+        nonlocal a, o, now
+        now += dt
+        a, o = max(-3600000, min(3600000, a + v[0] * dt)), wrap(o + v[1] * dt)
+
+    def pos():
+        nonlocal oe
+        oe = 1 - oe
+        f = pos_frame(rng, addr, kind, a, o, oe)
+        if surf:
+            f = gen.with_parity(gen.set_bits(gen.set_bits(f, 38, 44, rng.randint(30, 100)), 45, 45, 1)[:11])
+        script.append({"tnow": now, "adsb": [{"f": f, "t": now, "g": 1, "a": a, "o": o}], "commb": []})
+
+    for rnd in range(rng.randint(2, 3)):
+        pos()
+        fly(rng.choice([19, 21, 41, 61, 81, 95]))                # half seconds: 9.5 s (a pair) / 10.5 .. 47.5 s (not a pair)
+        pos()
+        fly(rng.choice([19, 21, 45, 90]))
+        pos()
+        for _ in range(rng.randint(4, 6)):                       # keep it listed without a position for > 180 s
+            fly(rng.choice([90, 100, 110]))
+            script.append({"tnow": now, "adsb": [{"f": es_frame(rng, addr, rng.choice([1, 2, 3, 4, 28, 31])), "t": now, "g": 0, "a": 0, "o": 0}], "commb": []})
+    fly(2)
+    pos()
+    fly(2)
+    pos()
+    return {"fn": "tracker.run", "rx": rx, "script": script, "lower": rng.choice([0, 0, 1, 2])}
+
+
 def history(ctx, rng, k):
     if k % 8 == 5:
         return long_gap(ctx, rng, k)
+    if k % 8 == 1:
+        return slow_pairs(ctx, rng, k)
     place = PLACES[k % len(PLACES)] if k % 3 else (rng.randrange(-3600000, 3600000), rng.randrange(-(1 << 23), 1 << 23))
     nac = rng.randint(2, 4)
     acs = []
